@@ -411,6 +411,22 @@ def tr_split_blocks(repo, consumed):
         merge_g = True
     else:
         raise TranslateError('_read_element_groups: !EGROUP branch not understood')
+    fn = _find_func(cls, '_read_node_groups')
+    consumed['fistr.py:_read_node_groups'] = _region(txt, fn)
+    body = [ast.unparse(x) for x in _body_wo_doc(fn)]
+    head = ["self.node_groups.update({'ALL': self.nodes.ids})",
+            "ngrps = header_data.extract_headers('!NGROUP').extract_captures('NGRP=(\\\\w+)')",
+            "series = header_data.extract_data('!NGROUP', concatenate=False)"]
+    oldn = ('self.node_groups.update({n: l.to_values(data_type=int, to_rank1=True) '
+            'for n, l in zip(ngrps, series)})')
+    newn = ('self.node_groups.update(self._merge_groups(ngrps, '
+            '[l.to_values(data_type=int, to_rank1=True) for l in series]))')
+    if body[:3] != head or len(body) != 4 or body[3] not in (oldn, newn):
+        raise TranslateError('_read_node_groups not understood')
+    merge_n = body[3] == newn
+    if merge_n and not merge_g:
+        mg = _find_func(cls, '_merge_groups')   # shape checked below only with merge_g
+        raise TranslateError('_merge_groups used for node groups only: not understood')
     fn = _find_func(cls, '_read_initial_condisions')
     consumed['fistr.py:_read_initial_condisions'] = _region(txt, fn)
     loops = [n for n in fn.body if isinstance(n, ast.For)]
@@ -427,7 +443,7 @@ def tr_split_blocks(repo, consumed):
         merge_i = True
     else:
         raise TranslateError('_read_initial_condisions: loops not understood')
-    return merge_g, merge_i
+    return merge_g, merge_i, merge_n
 
 
 def tr_read_array(repo, consumed):
@@ -455,7 +471,7 @@ def translate(repo):
     default_float_fmt = tr_read_array(repo, consumed)
     rebind_by_id = tr_remove_useless(repo, consumed)
     gen_empty_ok = tr_generate_constraints(repo, consumed)
-    merge_g, merge_i = tr_split_blocks(repo, consumed)
+    merge_g, merge_i, merge_n = tr_split_blocks(repo, consumed)
     if elem_fmt != '%d':
         raise TranslateError(f'element rows are written with {elem_fmt!r}, not %d')
     return {
@@ -465,7 +481,7 @@ def translate(repo):
         'default_frac_digits': _fmt_digits(default_float_fmt, 'read_array'),
         'element_types': types, 'ignore_pats': ignore, 'ignore_src': ignore_src,
         'rebind_by_id': rebind_by_id, 'gen_empty_ok': gen_empty_ok,
-        'merge_egroups': merge_g, 'merge_initial': merge_i,
+        'merge_egroups': merge_g, 'merge_initial': merge_i, 'merge_ngroups': merge_n,
     }, consumed
 
 
@@ -516,6 +532,7 @@ def emit(t):
         '   type are merged (true) or the later block replaces the earlier one (false) *)',
         f'Definition merge_egroups : bool := {"true" if t["merge_egroups"] else "false"}.',
         f'Definition merge_initial : bool := {"true" if t["merge_initial"] else "false"}.',
+        f'Definition merge_ngroups : bool := {"true" if t["merge_ngroups"] else "false"}.',
         '',
     ]
     return '\n'.join(lines)
